@@ -215,7 +215,7 @@ func init() {
 		}
 
 		// ------------------------------------------------------------ PE checksum
-		kl := map[string]string{"peStart": "pe_start", "h.odd": "odd", "n": "n", "h.cksumPos": "pos", "i": "i", "ckpos": "ckpos",
+		kl := map[string]string{"peStart": "pe_start", "h.odd": "odd", "n": "n", "h.cksumPos": "ckpos", "h.pos": "pos", "i": "i", "abs": "abs",
 			"d[i+1]": "hi", "d[i]": "lo", "sum": "sum", "h.size": "size"}
 		kt := map[string]string{"h.odd": "bool"}
 		o.condOf(funcSpec{dir: ac, recv: "", name: "NewPEChecksum", coqName: "ck_new_none_cond", params: "(pe_start : Z)", retType: "bool", leaves: kl, types: kt}, "if:peStart", 0)
@@ -226,19 +226,19 @@ func init() {
 		o.condOf(kw, "if:h.odd", 0)
 		kw.coqName, kw.params = "ck_write_odd_cond", "(n : Z)"
 		o.condOf(kw, "if:n%2", 0)
-		kw.coqName, kw.params = "ck_skip_cond", "(pos n : Z)"
+		kw.coqName, kw.params = "ck_zero_cond", "(abs ckpos : Z)"
 		o.condOf(kw, "if:h.cksumPos", 0)
-		kw.coqName, kw.params = "ck_here_cond", "(pos : Z)"
-		o.condOf(kw, "if:h.cksumPos", 1)
-		kw.coqName, kw.params = "ck_zero_cond", "(i ckpos : Z)"
-		o.condOf(kw, "if:ckpos", 0)
 		kw.coqName, kw.params = "ck_loop_cond", "(i n : Z)"
 		o.condOf(kw, "for:i", 0)
 		kw.retType = "Z"
+		kw.coqName, kw.params = "ck_abs", "(pos i : Z)"
+		o.exprOfAssign(kw, "abs", 0)
 		kw.coqName, kw.params = "ck_word", "(lo hi : Z)"
 		o.exprOfAssign(kw, "val", 0)
 		kw.coqName, kw.params = "ck_fold", "(sum : Z)"
 		o.exprOfAssign(kw, "sum", 2)
+		kw.coqName, kw.params = "ck_pos_advance", "(n : Z)"
+		o.exprOfAssign(kw, "h.pos", 0)
 		ks := funcSpec{dir: ac, recv: "peChecksum", name: "Sum", leaves: kl, types: kt, retType: "Z", coqName: "ck_final_fold", params: "(sum : Z)"}
 		c09BitLeaves(o, ks)
 		o.exprOfAssign(ks, "sum", 1)
